@@ -423,7 +423,29 @@ def race_pass(prop, tier, overlay=None, tag=""):
         counts[kind] = counts.get(kind, 0) + 1
         viol.append({"property": prop, "kind": kind, "what": "the process aborted with %r in the free-running pass" % fatal.group(0),
                      "replay": {"engine": "race-pass"}, "observed": out[out.index(fatal.group(0)):][:3000]})
-    ok = bool(fatal) or (("PASS" in out or "FAIL" in out) and p.returncode in (0, 1, 66))
+    rf = re.search(r"VERIF-READFAIL-TOTAL (\d+)", out)
+    if rf:
+        kind = "concurrent_read_failed"
+        counts[kind] = counts.get(kind, 0) + int(rf.group(1))
+        viol.append({"property": prop, "kind": kind, "what": "API reads of stored headers, or submissions, failed while headers were being ingested (free-running pass, pooled connections)",
+                     "replay": {"engine": "race-pass"}, "observed": "\n".join(re.findall(r"VERIF-READFAIL [^\n]*", out))[:2000]})
+    stall = re.search(r"VERIF-STALL round (\d+)[^\n]*\n(.*?)VERIF-STALL-END", out, re.S)
+    if stall:
+        # the watchdog of the pass dumped the goroutines after two minutes without progress: if
+        # goroutines of the service wait for a lock it is a deadlock of the code under test
+        mod = "github.com/bitcoin-sv/block-headers-service/"
+        waiting = []
+        for g in stall.group(2).split("\n\n"):
+            head = g.split("\n", 1)[0]
+            if re.search(r"\[(sync\.(RW)?Mutex\.(R)?Lock|semacquire)", head) and mod in g and "verifh/" not in g.split("\n")[2 if len(g.split("\n")) > 2 else 0]:
+                fn = [l for l in g.split("\n") if l.startswith(mod) and "verifh/" not in l]
+                waiting.append(fn[0].split("(")[0].replace(mod, "") if fn else "?")
+        if waiting:
+            kind = "deadlock/lock_wait(" + ",".join(sorted(set(waiting))[:3]) + ")"
+            counts[kind] = counts.get(kind, 0) + 1
+            viol.append({"property": prop, "kind": kind, "what": "the free-running pass made no progress for two minutes; goroutines of the service are waiting for a lock",
+                         "replay": {"engine": "race-pass"}, "observed": stall.group(2)[:6000]})
+    ok = bool(fatal) or bool(stall and viol) or (("PASS" in out or "FAIL" in out) and p.returncode in (0, 1, 66))
     rep = {"violations": viol, "violation_counts": counts, "exhaustive": True, "executions": 6,
            "extra": {"race_pass": {"rounds": 6, "reports": len(blocks), "distinct": len(counts), "note": "detector pass: samples schedules, does not enumerate them"}}}
     errs = [] if ok else ["race pass did not run to completion: exit %d: %s" % (p.returncode, out[-1500:])]
